@@ -154,30 +154,39 @@ theorem no_drift_from (c : Cfg) (start : Nat) (t0 : Int) (ds : List Nat) (hp : 0
     omega
 
 /-- **no drift.**  If none of the first k handlers overran, tick k fires exactly k periods after
-tick 0: the time spent in the handlers never accumulates. -/
+tick 0, i.e. k+1 periods after the worker was entered: the time spent in the handlers never
+accumulates. -/
 theorem no_drift (c : Cfg) (start : Nat) (t0 : Int) (ds : List Nat) (k : Nat) (a0 ak : Tick)
     (hp : 0 < c.period)
     (h0 : (worker c start t0 ds).1[0]? = some a0) (hk : (worker c start t0 ds).1[k]? = some ak)
-    (hle : ∀ j d, j < k → ds[j]? = some d → dur c d ≤ c.tTick) :
-    ak.time = a0.time + (k : Int) * (c.tTick : Int) := by
+    (hle : ∀ d ∈ ds.take k, dur c d ≤ c.tTick) :
+    ak.time = a0.time + (k : Int) * (c.tTick : Int) ∧
+    ak.time = t0 + ((k : Int) + 1) * (c.tTick : Int) := by
   have hk' : (worker c start t0 ds).1[0 + k]? = some ak := by rw [Nat.zero_add]; exact hk
-  exact no_drift_from c start t0 ds hp 0 a0 h0 k ak hk'
-    (fun j d _ hj hjd => hle j d (by omega) hjd)
+  have h := no_drift_from c start t0 ds hp 0 a0 h0 k ak hk'
+    (fun j d _ hj hjd => hle d (mem_take_of_getElem? hjd (by omega)))
+  have hf := (first_tick c start t0 ds a0 hp h0).1
+  refine ⟨h, ?_⟩
+  rw [h, hf, Int.add_mul]
+  omega
 
 /-- **resynchronisation.**  If the handler of tick k overran the period, tick k+1 fires the
-moment that handler returns (`wait(0)`), and the grid restarts there: the following ticks are
-one period apart measured from tick k+1 (the lost time is not made up by early ticks). -/
+moment that handler returns (`wait(0)`), and the grid restarts there: as long as the following
+handlers stay within the period, tick k+1+m fires exactly m periods after tick k+1 (the lost
+time is not made up by early ticks). -/
 theorem resync_after_overrun (c : Cfg) (start : Nat) (t0 : Int) (ds : List Nat) (k : Nat) (a b : Tick) (d : Nat)
     (hp : 0 < c.period)
     (ha : (worker c start t0 ds).1[k]? = some a) (hb : (worker c start t0 ds).1[k + 1]? = some b)
     (hd : ds[k]? = some d) (hover : c.tTick < dur c d) :
     b.time = a.time + (dur c d : Int) ∧ b.dt = 0 ∧
     ∀ (m : Nat) (e : Tick), (worker c start t0 ds).1[k + 1 + m]? = some e →
-      (∀ j d', k + 1 ≤ j → j < k + 1 + m → ds[j]? = some d' → dur c d' ≤ c.tTick) →
+      (∀ d' ∈ (ds.drop (k + 1)).take m, dur c d' ≤ c.tTick) →
       e.time = b.time + (m : Int) * (c.tTick : Int) := by
   have h := loop_consecutive c hp ds _ k a b d ha hb hd
   refine ⟨by omega, by omega, ?_⟩
-  exact no_drift_from c start t0 ds hp (k + 1) b hb
+  intro m e he hle
+  exact no_drift_from c start t0 ds hp (k + 1) b hb m e he
+    (fun j d' hj hj' hjd => hle d' (mem_drop_take_of_getElem? hjd hj hj'))
 
 /-- closed form: tick k fires one period after the worker was entered plus, for every earlier
 tick, one period or the handler time if that was longer. -/
